@@ -69,6 +69,19 @@ func (w *World) Duplicates() []string {
 	return out
 }
 
+// pubType is the type of the version of the instance that the container publishes when a
+// post-processor substitutes it around initialization by an object of another type.
+func (w *World) pubType(id string) string {
+	for _, pr := range w.P.Procs {
+		for _, r := range pr.Rules {
+			if r.Target == id && r.SubType != "" && r.At != sdl.CbEarly {
+				return r.SubType
+			}
+		}
+	}
+	return w.Insts[id].Type
+}
+
 func hasIface(t *sdl.Type, k int) bool {
 	for _, x := range t.Ifaces {
 		if x == k {
@@ -140,7 +153,8 @@ func (w *World) Resolve(h *sdl.Instance, pt *sdl.Point) *Resolution {
 			r.NameAbsent = true
 		}
 		for _, id := range ids {
-			if assignable(w.Types[w.Insts[id].Type], pt) {
+			// what is injected is the published version: a wrapper of another type decides
+			if assignable(w.Types[w.pubType(id)], pt) {
 				cands = append(cands, id)
 			} else {
 				r.NameWrongType = true
